@@ -267,13 +267,15 @@ def search(res, tier, seed, deep=False):
         try:
             with warnings.catch_warnings():
                 warnings.simplefilter("ignore")
-                A = cls.from_variable(var, **{**extra, fname: alt})
+                K = cls.from_variable(var, **{**extra, fname: alt})      # keyword override through from_variable
                 B = cls.from_variable(var, **{k: v for k, v in extra.items() if k != fname})
-            if getattr(A, fname) != alt and not (isinstance(alt, float) and getattr(A, fname) == float(alt)):
+                # "passing it at construction": the class constructor with B's settings and the new value
+                A = cls(**{**{f.name: getattr(B, f.name) for f in attrs.fields(cls)}, fname: alt})
+            if getattr(K, fname) != alt and not (isinstance(alt, float) and getattr(K, fname) == float(alt)):
                 report("kwargs-override:" + dn, dn + ".from_variable", inp, dict(got=repr(getattr(A, fname))), "keyword argument does not override the variable default")
             # other fields keep the defaults
             for g in attrs.fields(cls):
-                if g.name not in (fname, "distribution") and g.name not in extra and getattr(A, g.name) != getattr(base, g.name) and not (g.name == "cdf_threshold"):
+                if g.name not in (fname, "distribution") and g.name not in extra and getattr(K, g.name) != getattr(base, g.name) and not (g.name == "cdf_threshold"):
                     report("kwargs-side-effect:" + dn, dn + ".from_variable", inp, dict(field=g.name), "overriding one setting changed another one")
             setattr(B, fname, alt)
             ya = run_apply(A, var); yb = run_apply(B, var)
@@ -312,8 +314,9 @@ def replay(w):
     try:
         with warnings.catch_warnings():
             warnings.simplefilter("ignore")
-            A = cls.from_variable(inp["variable"], **{**extra, inp["field"]: alt})
+            import attrs
             B = cls.from_variable(inp["variable"], **{k: v for k, v in extra.items() if k != inp["field"]})
+            A = cls(**{**{f.name: getattr(B, f.name) for f in attrs.fields(cls)}, inp["field"]: alt})
         setattr(B, inp["field"], alt)
         ya = run_apply(A, inp["variable"]); yb = run_apply(B, inp["variable"])
         same = np.array_equal(ya, yb, equal_nan=True)
